@@ -141,6 +141,14 @@ func ExecPlan(t *testing.T, h Harness, p *Plan, keepTrace bool) (*Result, *Run) 
 	// the bubble is a scheduling point (0 = the plain run-until-blocked order)
 	SetLockYield(int(p.Knob("lock_yield", 0)))
 	defer SetLockYield(0)
+	// crypto/rand and google/uuid (bitswap task ids, DHT, datastore keys) draw
+	// from the plan's stream, not from the kernel
+	if os.Getenv("VERIF_RT_TRACE") != "" {
+		TraceDraws(true)
+		defer TraceDraws(false)
+	}
+	restoreRand := seedCryptoRand(p.Seed)
+	defer restoreRand()
 	w0 := time.Now() // outside the bubble: real time
 	errText := ""
 	func() {
